@@ -179,6 +179,7 @@ HARNESS_KINDS = {
     'lock': ('hx_lock.cpp', ['src/lock/pessimistic_lock.cpp', 'src/lock/optimistic_lock.cpp', 'src/lock/mcs_lock.cpp'], []),
     'thread': ('hx_thread.cpp', ['src/thread/epoch_manager.cpp', 'src/thread/component/epoch.cpp',
                                  'src/thread/epoch_guard.cpp'], ['-DVERIF_SHIM_HEARTBEAT']),
+    'zipf': ('hx_zipf.cpp', ['src/random/zipf.cpp'], ['NOSHIM']),
 }
 
 
@@ -189,6 +190,9 @@ def build_harness(kind, retry=1, nthread=4, sanitize=False):
     flags = ['-std=c++20', '-O1', '-g', '-w', f'-DDBGROUP_MAX_THREAD_NUM={nthread}',
              f'-DCPP_UTILITY_SPINLOCK_RETRY_NUM={retry}', '-DCPP_UTILITY_BACKOFF_TIME=0',
              f'-I{REPO}/include', f'-I{REPO}/src', f'-I{HARNESS}'] + extra
+    noshim = 'NOSHIM' in flags
+    if noshim:
+        flags.remove('NOSHIM')
     if sanitize:
         flags += ['-fsanitize=address,undefined', '-fno-sanitize-recover=all', '-fno-omit-frame-pointer']
     hsrc = [os.path.join(HARNESS, f) for f in os.listdir(HARNESS) if f.endswith(('.cpp', '.hpp'))]
@@ -201,19 +205,21 @@ def build_harness(kind, retry=1, nthread=4, sanitize=False):
             return exe
         os.makedirs(d, exist_ok=True)
         shim = os.path.join(HARNESS, 'shim.hpp')
+        inc = [] if noshim else ['-include', shim]
         jobs = []
         objs = []
         for tu in tus:
             o = os.path.join(d, os.path.basename(tu).replace('.cpp', '.o'))
             objs.append(o)
-            jobs.append(['g++'] + flags + ['-include', shim, '-c', os.path.join(REPO, tu), '-o', o])
-        o = os.path.join(d, 'sched.o')
-        objs.append(o)
-        jobs.append(['g++'] + flags + ['-include', shim, '-DVERIF_SHIM_NO_RENAME', '-c',
-                                       os.path.join(HARNESS, 'sched.cpp'), '-o', o])
+            jobs.append(['g++'] + flags + inc + ['-c', os.path.join(REPO, tu), '-o', o])
+        if not noshim:
+            o = os.path.join(d, 'sched.o')
+            objs.append(o)
+            jobs.append(['g++'] + flags + ['-include', shim, '-DVERIF_SHIM_NO_RENAME', '-c',
+                                           os.path.join(HARNESS, 'sched.cpp'), '-o', o])
         o = os.path.join(d, 'main.o')
         objs.append(o)
-        jobs.append(['g++'] + flags + ['-include', shim, '-c', os.path.join(HARNESS, main_src), '-o', o])
+        jobs.append(['g++'] + flags + inc + ['-c', os.path.join(HARNESS, main_src), '-o', o])
         with ThreadPoolExecutor(max_workers=NCPU) as ex:
             results = list(ex.map(lambda c: sh(c), jobs))
         errs = [r.stderr for r in results if r.returncode != 0]
